@@ -286,6 +286,13 @@ inline Rational ratFromString(const char* desc)
                res /= power;
          }
       }
+
+      // a number beyond the range of double becomes inf in the floating-point LP, and converting that back raises
+      // SIGFPE in GMP; treat it like "inf" above
+      if(res > DBL_MAX)
+         res = 1e100;
+      else if(res < -DBL_MAX)
+         res = -1e100;
    }
 
    return res;
